@@ -95,7 +95,13 @@ def resolve_cond(prog, fn, op, tracer, depth=0, seen=None):
             return Cond(('cmp2', rv['op'], frozenset(tracer.prov(fn, a)), frozenset(tracer.prov(fn, b))))
         return None
     if df['kind'] == 'call':
-        t = df['term']
+        return cond_of_call(prog, fn, df['term'], tracer, depth, seen)
+    return None
+
+
+def cond_of_call(prog, fn, t, tracer, depth=0, seen=None):
+    """Condition descriptor for the boolean result of a call terminator."""
+    if True:
         cs = callee_short(t)
         name = cs.rsplit('::', 1)[-1]
         args = t['args']
@@ -110,7 +116,6 @@ def resolve_cond(prog, fn, op, tracer, depth=0, seen=None):
                 c.positive = not c.positive
             return c
         return Cond(('call', cs, a0))
-    return None
 
 
 class GuardFlow:
@@ -310,6 +315,20 @@ class GuardFlow:
                 if ks:
                     ns = dict(st)
                     self._apply_kills(ns, ks)
+            dst = t.get('dest')
+            if dst and 'p' not in dst and dst['l'] in self._multi_def_bools:
+                # a merge-temp bool defined by a call on this path (`a && x.is_some()`)
+                ns = dict(ns)
+                l = dst['l']
+                ns.pop('L:%d' % l, None)
+                ns.pop('A:%d' % l, None)
+                c = cond_of_call(self.prog, fn, t, self.tracer)
+                a = self.atom_for_cond(c)
+                if a is not None and c.mode == 'bool':
+                    if a in ns:
+                        ns['L:%d' % l] = ns[a] if c.positive else (not ns[a])
+                    else:
+                        ns['A:%d' % l] = (a, c.positive)
             if 't' in t:
                 yield t['t'], ns
             return
